@@ -21,6 +21,7 @@ enum Code
     DEFAULT,    // default_value(...)
     GROUP,      // parser.group(name)
     MOVE,       // move the parser (old one destroyed or kept alive)
+    PARSE,      // parse in the middle of the history (then the history goes on)
     CODE_COUNT
 };
 
@@ -58,7 +59,8 @@ static const char* NAMES[] = { "a", "b", "c", "--a" };
 static const char* LETTERS[] = { "x", "y", "", "xy", "z", "\xe4" };
 static const char* ENVS[] = { "NITRO_VERIF_D1", "NITRO_VERIF_D2" };
 static const char* METAVARS[] = { "FILE", "", "N" };
-static const char* GROUPS[] = { "__default__", "__default__", "A", "B", "__default__", "A", "B" };
+// "arguments" is the heading of the default group: a named group of that name is a group of its own
+static const char* GROUPS[] = { "__default__", "__default__", "A", "B", "__default__", "A", "B", "arguments" };
 static const char* KINDS[] = { "option", "multi_option", "toggle" };
 
 const char* property_ids()
@@ -74,7 +76,7 @@ std::string describe(const Case& c)
         switch (op.code)
         {
         case DECL:
-            o << (op.group % 7 == 0 ? "parser" : std::string(op.group % 7 >= 4 ? "held-group(" : "group(") + GROUPS[op.group % 7] + ")") << "."
+            o << (op.group % 8 == 0 ? "parser" : std::string(op.group % 8 >= 4 && op.group % 8 <= 6 ? "held-group(" : "group(") + GROUPS[op.group % 8] + ")") << "."
               << KINDS[op.kind % 3] << "(" << NAMES[op.name % 4] << ") ";
             break;
         case SHORT:
@@ -95,6 +97,9 @@ std::string describe(const Case& c)
         case MOVE:
             o << ((op.arg / 2) % 2 ? "MOVE-ASSIGN-PARSER" : "MOVE-PARSER")
               << (op.arg % 2 ? "(keep old) " : "(destroy old) ");
+            break;
+        case PARSE:
+            o << "parse ";
             break;
         }
     }
@@ -124,10 +129,10 @@ Case generate(vf::Src& src, const std::string& mode)
         }
         else
         {
-            op.code = static_cast<int>(src.weighted({ 40, 22, 5, 4, 4, 7, 18 }));
+            op.code = static_cast<int>(src.weighted({ 38, 27, 5, 4, 4, 6, 17, 8 }));
             op.kind = src.irange(0, 2);
             op.name = src.coin(92) ? src.irange(0, 2) : 3;
-            op.group = src.coin(75) ? src.irange(0, 3) : src.irange(4, 6);
+            op.group = src.coin(75) ? src.irange(0, 3) : src.irange(4, 7);
             op.arg = src.irange(0, 5);
             if (op.code == SHORT) // favour collisions on the letters x and y (and a high-bit byte)
                 op.arg = static_cast<int>(src.weighted({ 34, 26, 8, 8, 12, 12 }));
@@ -161,11 +166,105 @@ std::string check(const Case& c, vf::Ctx& ctx)
 
     auto where = [&](const Op&) { return " (step " + std::to_string(step) + " of: " + describe(c) + ")"; };
 
+    // every declared entry gets a distinct value through its long name and (where it has one) its
+    // letter; a parser in which two entries share a letter must refuse
+    bool tagged_shared = false;
+    auto parse_now = [&](const std::string& desc) -> std::string {
+        std::map<std::string, int> letter_use;
+        for (auto& kv : model)
+            if (!kv.second.short_.empty())
+                letter_use[kv.second.short_]++;
+        bool shared_letter = false;
+        for (auto& kv : letter_use)
+            if (kv.second > 1)
+                shared_letter = true;
+        if (shared_letter && !tagged_shared)
+        {
+            tagged_shared = true;
+            ctx.tag("parse:shared-letter");
+        }
+        std::vector<std::string> argv = { "prog" };
+        std::map<std::string, std::string> want_opt;
+        std::map<std::string, std::vector<std::string>> want_multi;
+        std::map<std::string, int> want_tog;
+        int serial = 0;
+        for (auto& kv : model)
+        {
+            const std::string& n = kv.first;
+            const Entry& e = kv.second;
+            ++serial;
+            if (n[0] == '-')
+                continue; // unreachable from the command line; its letter, if any, still counts
+            if (e.kind == 0)
+            {
+                std::string v = "val-" + n;
+                if (!e.short_.empty() && serial % 2)
+                    argv.push_back("-" + e.short_ + "=" + v);
+                else
+                    argv.push_back("--" + n + "=" + v);
+                want_opt[n] = v;
+            }
+            else if (e.kind == 1)
+            {
+                argv.push_back("--" + n + "=L-" + n);
+                want_multi[n].push_back("L-" + n);
+                if (!e.short_.empty())
+                {
+                    argv.push_back("-" + e.short_ + "=S-" + n);
+                    want_multi[n].push_back("S-" + n);
+                }
+            }
+            else
+            {
+                argv.push_back("--" + n);
+                int k = 1;
+                if (!e.short_.empty())
+                {
+                    argv.push_back("-" + std::string(static_cast<std::size_t>(serial + 1), e.short_[0]));
+                    k += serial + 1;
+                }
+                want_tog[n] = k;
+            }
+        }
+        std::vector<const char*> av;
+        for (auto& s : argv)
+            av.push_back(s.c_str());
+        try
+        {
+            auto args = p->parse(static_cast<int>(av.size()), av.data());
+            if (shared_letter)
+                return "a parser in which two options share a letter parsed" + desc;
+            for (auto& kv : want_opt)
+                if (args.get(kv.first) != kv.second)
+                    return "option '" + kv.first + "' received " + vf::vis(args.get(kv.first)) + ", expected " +
+                           vf::vis(kv.second) + desc;
+            for (auto& kv : want_multi)
+                if (args.get_all(kv.first) != kv.second)
+                    return "multi-option '" + kv.first + "' received the wrong list" + desc;
+            for (auto& kv : want_tog)
+                if (args.given(kv.first) != kv.second)
+                    return "toggle '" + kv.first + "' counted " + std::to_string(args.given(kv.first)) +
+                           ", expected " + std::to_string(kv.second) + desc;
+        }
+        catch (const parser_error& e)
+        {
+            if (!shared_letter)
+                return std::string("parse raised the developer error although no letter is shared: ") +
+                       e.what() + desc;
+        }
+        catch (const std::exception& e)
+        {
+            return std::string("parse raised ") + e.what() +
+                   (shared_letter ? " instead of the developer error for a shared letter" : "") + desc;
+        }
+        return "";
+    };
+
     for (const Op& op : c.ops)
     {
         std::string name = NAMES[op.name % 4];
-        int g = op.group % 7;
-        const bool via_held = g >= 4;
+        int g = op.group % 8;
+        const bool via_held = g >= 4 && g <= 6;
         if (via_held)
             g = g == 4 ? 1 : g - 3; // 4 -> default, 5 -> A, 6 -> B
         int gnorm = g <= 1 ? 0 : g;
@@ -192,7 +291,10 @@ std::string check(const Case& c, vf::Ctx& ctx)
                 {
                     // either ask the current parser for the group, or use a reference that was
                     // obtained at an earlier point of the history (it stays valid across moves)
-                    nitro::options::group*& slot_ref = held[g == 1 ? 0 : g - 1];
+                    nitro::options::group* unheld = nullptr;
+                    nitro::options::group*& slot_ref = g == 7 ? unheld : held[g == 1 ? 0 : g - 1];
+                    if (g == 7)
+                        ctx.tag("decl:group-named-like-the-default-heading");
                     if (!via_held || slot_ref == nullptr)
                         slot_ref = g == 1 ? &p->group() : &p->group(GROUPS[g], "");
                     else
@@ -344,6 +446,14 @@ std::string check(const Case& c, vf::Ctx& ctx)
                 return std::string("group() raised: ") + ex.what() + where(op);
             }
             break;
+        case PARSE:
+        {
+            ctx.tag("parse:in-the-middle-of-the-history");
+            std::string m = parse_now(where(op));
+            if (!m.empty())
+                return m;
+            break;
+        }
         case MOVE:
         {
             std::unique_ptr<parser> fresh;
@@ -379,89 +489,12 @@ std::string check(const Case& c, vf::Ctx& ctx)
     for (auto& kv : letter_use)
         if (kv.second > 1)
             shared_letter = true;
-    if (shared_letter)
-        ctx.tag("parse:shared-letter");
     if (decl_after_move)
         ctx.tag("decl:after-move");
     if (collision || shared_letter || decl_after_move)
         ctx.mark_nontrivial();
 
-    std::vector<std::string> argv = { "prog" };
-    std::map<std::string, std::string> want_opt;
-    std::map<std::string, std::vector<std::string>> want_multi;
-    std::map<std::string, int> want_tog;
-    int serial = 0;
-    for (auto& kv : model)
-    {
-        const std::string& n = kv.first;
-        const Entry& e = kv.second;
-        ++serial;
-        if (n[0] == '-')
-            continue; // unreachable from the command line; its letter, if any, still counts
-        if (e.kind == 0)
-        {
-            std::string v = "val-" + n;
-            if (!e.short_.empty() && serial % 2)
-                argv.push_back("-" + e.short_ + "=" + v);
-            else
-                argv.push_back("--" + n + "=" + v);
-            want_opt[n] = v;
-        }
-        else if (e.kind == 1)
-        {
-            argv.push_back("--" + n + "=L-" + n);
-            want_multi[n].push_back("L-" + n);
-            if (!e.short_.empty())
-            {
-                argv.push_back("-" + e.short_ + "=S-" + n);
-                want_multi[n].push_back("S-" + n);
-            }
-        }
-        else
-        {
-            argv.push_back("--" + n);
-            int k = 1;
-            if (!e.short_.empty())
-            {
-                argv.push_back("-" + std::string(static_cast<std::size_t>(serial + 1), e.short_[0]));
-                k += serial + 1;
-            }
-            want_tog[n] = k;
-        }
-    }
-    std::vector<const char*> av;
-    for (auto& s : argv)
-        av.push_back(s.c_str());
-    std::string desc = " after: " + describe(c);
-    try
-    {
-        auto args = p->parse(static_cast<int>(av.size()), av.data());
-        if (shared_letter)
-            return "a parser in which two options share a letter parsed" + desc;
-        for (auto& kv : want_opt)
-            if (args.get(kv.first) != kv.second)
-                return "option '" + kv.first + "' received " + vf::vis(args.get(kv.first)) + ", expected " +
-                       vf::vis(kv.second) + desc;
-        for (auto& kv : want_multi)
-            if (args.get_all(kv.first) != kv.second)
-                return "multi-option '" + kv.first + "' received the wrong list" + desc;
-        for (auto& kv : want_tog)
-            if (args.given(kv.first) != kv.second)
-                return "toggle '" + kv.first + "' counted " + std::to_string(args.given(kv.first)) +
-                       ", expected " + std::to_string(kv.second) + desc;
-    }
-    catch (const parser_error& e)
-    {
-        if (!shared_letter)
-            return std::string("parse raised the developer error although no letter is shared: ") +
-                   e.what() + desc;
-    }
-    catch (const std::exception& e)
-    {
-        return std::string("parse raised ") + e.what() +
-               (shared_letter ? " instead of the developer error for a shared letter" : "") + desc;
-    }
-    return "";
+    return parse_now(" after: " + describe(c));
 }
 } // namespace h
 
